@@ -551,6 +551,7 @@ pub fn c17(run: &mut Run) {
                     Outcome::Infra(m) => run.health_fail(m),
                 }
             }
+            run.mark_replay_ran();
             println!("REPLAY property=C17 check=c17_shapes done");
         }
         return;
